@@ -741,8 +741,13 @@ def odd_extra_ok(flavour, L, op):
     """a List trait value also has a length to keep legal (at most sys.maxsize items by default):
     where the requested length is illegal and the list raises as well, either is accepted"""
     if flavour == "tlo" and op[0] == "imul":
+        m = op[1]
         try:
-            if bool(L * op[1] > sys.maxsize):
+            m = operator.index(m)      # what list itself reads the multiplier through
+        except Exception:
+            pass
+        try:
+            if bool(L * m > sys.maxsize):
                 return (TraitError,)
         except Exception:
             pass
